@@ -1,6 +1,7 @@
 import Martian.Lemmas.Har
 import Martian.Props.C16.Headers
 import Martian.Props.C16.Json
+import Martian.Props.C16.Query
 import Martian.Props.C16.Facts
 /-!
 C16 — HAR entries faithfully describe the exchange and survive a JSON round trip.
